@@ -359,6 +359,14 @@ def fam_c14(tier, rng):
                                         actors={"job": {"policy": ["const", 0]}}, nworkers=2,
                                         worker={"tasks_limit": 1, "messages_limit": 0, "grace_s": grace}, horizon_ms=1500,
                                         stop={"at_ms": dur - int(grace * 1000) + off, "worker": 0}))
+    # a forced shutdown whose give-backs take time (subscribers that await): the other workers poll all the while
+    for slow in (3, 20):
+        for grace in (0.0, 0.05):
+            for n in (1, 3):
+                scs.append(default_scenario(jobs=[{"id": f"m{k}", "actor": "job", "script": ["ok"], "dur_ms": [400]} for k in range(n)],
+                                            actors={"job": {"policy": ["const", 0]}}, nworkers=3, slow_signals_ms=slow,
+                                            worker={"tasks_limit": 2, "messages_limit": 0, "grace_s": grace}, horizon_ms=2500,
+                                            stop={"at_ms": 120, "worker": 0}))
     return scs
 
 
